@@ -10,6 +10,10 @@ claimed = {
    text="Bit-vector proofs over the full 64/32-bit input domains of every colour conversion (Valid, IsRGB, Hex, RGB, TrueColor, NewHexColor, NewRGBColor, PaletteColor) against contracts taken from the property; FindColor proved optimal and member-returning for every colour and every palette length by a cut loop with an inductive invariant (CIE76 as an uninterpreted function); every entry of the xterm-256 and W3C name tables decided by evaluating the real functions on it.",
    note="Assumed: go-colorful DistanceCIE76 is deterministic/total and is CIE76; float arithmetic abstracted to uninterpreted functions over IEEE doubles (comparisons exact); package tables hold their literal initial values; the CSS table in spec/std and the xterm formula are the oracle; CSS()/GetColor('#rrggbb')/FromImageColor string and interface paths are not under contract yet. Palette members must carry the valid flag (stated precondition).",
    technique="contract-based deductive verification: go/ssa WP-style symbolic execution + z3/cvc5, loop invariant for FindColor, exhaustive table evaluation on the real code", ref="6 (C16)"),
+ "C03": dict(cat="proof",
+   text="NewEventKey proved bit-exactly (all keys, runes, modifier masks): control runes become Key(ch) with Ctrl except BS/TAB/CR/ESC, DEL becomes Backspace2. For every registered terminal description (enumerated by evaluating the real init functions and AddTerminfo), the real prepareKeys is evaluated on the concrete description and the resulting table is checked exhaustively: prefix-freeness, every key capability present and decoding to a key the description assigns to it, xterm modifier parameter 2..16 on cursor/editing/function keys equals the xterm Shift/Alt/Ctrl/Meta formula, control bytes, and decoding of capability sequences (plain and after ESC: Alt added) through the real parseFunctionKey.",
+   note="Assumed: xterm PC-style modifier encoding and terminfo capability naming as the oracle; map iteration evaluated in insertion order (quick) and also reverse order (thorough), order-independence otherwise rests on the proved prefix-freeness; decoding of concatenations rests on C02 (not yet claimed); lone ESC / timeout behaviour is part of the driver (C02).",
+   technique="contract-based deductive verification: bit-vector contract for NewEventKey; evaluation rule (complete symbolic evaluation of the real code on each concrete description) for the tables", ref="6 (C03)"),
  "C08": dict(cat="proof",
    text="Whole-view contracts on every CellBuffer operation (SetContent, GetContent, Dirty, SetDirty, Invalidate, LockCell, UnlockCell, Fill, Resize, Size) proved for all sizes, coordinates, runes, styles and combining slices: the cell written holds exactly what was set (fresh copy of the combining runes, ColorNone merged), every other cell and field is unchanged, out-of-range accesses do nothing, Dirty equals the specification predicate over the last-clean snapshot, wide-rune neighbours are dirtied, Resize keeps the overlap (2-D inductive invariants) and dirties/unlocks everything. Loops cut with inductive invariants; index arithmetic y*w+x is nonlinear and unbounded.",
    note="Assumed: go-runewidth RuneWidth is a total function with values 0..2; reflect.DeepEqual on []rune modelled as element-wise equality; machine integers treated as mathematical; Resize(w,h) requires w,h>=0; GetContent returns the internal combining slice (a caller mutating the returned slice is outside the property).",
